@@ -157,6 +157,9 @@ NEAR_CSS = ["hsl(120deg, 50%, 40%)", "hsl(0.5turn, 50%, 40%)", "hsl(3.4rad, 50%,
             "rgb(calc(10*2), 0, 0)", "light-dark(#000, #fff)", "canvastext", "rebeccapurple", "RebeccaPurple", "rgb(50% 20% 10%)",
             "hsl(120, 50%, 40%, 0.5)", "rgba(10, 20, 30)", "rgb(10.5, 20.2, 30.9)", "rgb(1e2, 0, 0)", "hsl(-120, 50%, 40%)",
             "hsl(480, 50%, 40%)", "hsl(120, 50, 40)", "rgb(10,20,30,)", "rgb(10;20;30)", "0x112233", "112233", "#112233 ", "# 112233"]
+# plain words that are not colours (a CSV heading row, a placeholder, a typo'd name): unparsable like any other poison
+POISON_WORDS = ["text", "background", "color", "colour", "fg", "bg", "foreground", "name", "notacolor", "alsobad", "Text Colour",
+                "bg_color", "large", "none", "default", "auto", "grey50", "lightgray2", "blu", "whit"]
 POISON_OBJ = [None, (1, 2), (1, 2, 3, 4, 5), (300, 0, 0), (-1, 0, 0), ("a", "b", "c"), 3.5, (None, None, None), [], ()]
 CSS_KEYWORDS = ["inherit", "currentcolor", "transparent", "initial", "unset", "currentColor"]
 
